@@ -1632,29 +1632,58 @@ func (s *Sym) allocLiteral(a *ssa.Alloc) *Term {
 	if !ok || !a.Heap {
 		return nil
 	}
+	body := s.literalStruct(a, st, typeShort(deref(a.Type())))
+	if body == nil {
+		return nil
+	}
+	return T("ref", "", body)
+}
+
+// literalStruct: the fields reached from base (an Alloc or the FieldAddr of a
+// nested struct field) are each stored exactly once through FieldAddrs used
+// for nothing else; nested struct-typed fields assembled field by field
+// (T{Inner{a, b}, c}) are described recursively.
+func (s *Sym) literalStruct(base ssa.Value, st *types.Struct, name string) *Term {
 	var kvs []*Term
 	seen := map[int]bool{}
-	for _, r := range *a.Referrers() {
+	for _, r := range *base.Referrers() {
 		fa, ok := r.(*ssa.FieldAddr)
 		if !ok {
 			continue
 		}
-		refs := *fa.Referrers()
-		if len(refs) != 1 {
+		if seen[fa.Field] {
 			return nil
 		}
-		store, ok := refs[0].(*ssa.Store)
-		if !ok || store.Addr != fa || seen[fa.Field] {
+		refs := *fa.Referrers()
+		if len(refs) == 1 {
+			if store, ok := refs[0].(*ssa.Store); ok && store.Addr == fa {
+				seen[fa.Field] = true
+				kvs = append(kvs, &Term{Op: "kv", Name: st.Field(fa.Field).Name(), Args: []*Term{s.objAt(store.Val, store)}, Site: store})
+				continue
+			}
+		}
+		// nested struct field built in place
+		inner, isStruct := st.Field(fa.Field).Type().Underlying().(*types.Struct)
+		if !isStruct || len(refs) == 0 {
+			return nil
+		}
+		for _, rr := range refs {
+			if _, ok := rr.(*ssa.FieldAddr); !ok {
+				return nil
+			}
+		}
+		sub := s.literalStruct(fa, inner, typeShort(st.Field(fa.Field).Type()))
+		if sub == nil {
 			return nil
 		}
 		seen[fa.Field] = true
-		kvs = append(kvs, &Term{Op: "kv", Name: st.Field(fa.Field).Name(), Args: []*Term{s.objAt(store.Val, store)}, Site: store})
+		kvs = append(kvs, &Term{Op: "kv", Name: st.Field(fa.Field).Name(), Args: []*Term{sub}})
 	}
 	if len(kvs) == 0 {
 		return nil
 	}
 	sort.Slice(kvs, func(i, j int) bool { return kvs[i].Name < kvs[j].Name })
-	return T("ref", "", &Term{Op: "struct", Name: typeShort(deref(a.Type())), Args: kvs})
+	return &Term{Op: "struct", Name: name, Args: kvs}
 }
 
 // evalMake: a fresh buffer. If exactly one instruction fills it (copy into it,
